@@ -145,7 +145,9 @@ def cases_prop(full):
             for ci, cn, cs in itertools.product(OB, repeat=3):
                 gs_dom = list(itertools.product(OB, repeat=3))
                 if not full:
-                    gs_dom = rng.sample(gs_dom, 3)
+                    gs_dom = rng.sample(gs_dom, 1)
+                    if k == 3 or (n is not None and s is not None and rng.random() < 0.7):
+                        continue
                 for gi, gn, gs in gs_dom:
                     from awesomeyaml.nodes.dict import ConfigDict
                     g = mk(0, _implicit_delete=gi, _implicit_allow_new=gn, _implicit_safe=gs)
